@@ -88,8 +88,6 @@ type genCfg struct {
 	minN    int
 	maxN    int
 	cnrs    int
-	// noTombOnParent: known finding fpTombParent is open, do not generate its class.
-	noTombOnParent bool
 	// noExpiredParent: known finding fpExpParent is open, do not generate its class.
 	noExpiredParent bool
 }
@@ -111,6 +109,7 @@ func genSet(t *rapid.T, cfg genCfg) Set {
 
 	perms := make([][]int, cfg.cnrs)
 	next := make([]int, cfg.cnrs)
+	usedSplit := make([]int, cfg.cnrs)
 	for c := range perms {
 		perms[c] = rapid.Permutation([]int{0, 1, 2, 3, 4, 5, 6, 7, 8, 9, 10, 11}).Draw(t, fmt.Sprintf("ids%d", c))
 	}
@@ -145,6 +144,9 @@ func genSet(t *rapid.T, cfg genCfg) Set {
 			break
 		}
 		form := rapid.SampledFrom([]string{"plain", "plain", "v2", "v2", "v1", "ec"}).Draw(t, "form")
+		if form == "v1" && usedSplit[c] >= 3 {
+			form = "v2" // split IDs are unique per split object; the universe has three
+		}
 		f := Family{Cnr: c, Root: alloc(c), Form: form, RootExp: exp("root-exp")}
 		fam := len(s.Families)
 		s.Families = append(s.Families, f)
@@ -196,14 +198,16 @@ func genSet(t *rapid.T, cfg genCfg) Set {
 			}
 		case "v1":
 			pick := rapid.IntRange(1, 3).Draw(t, "v1-parts")
+			split := usedSplit[c]
+			usedSplit[c]++
 			if pick&1 != 0 {
 				sp := blank(uni.ChildV1, c, alloc(c))
-				sp.Split = fam % 3
+				sp.Split = split
 				child(rV1Mid, sp, true)
 			}
 			if pick&2 != 0 {
 				sp := withParent(blank(uni.ChildV1, c, alloc(c)))
-				sp.Split, sp.Last = fam%3, true
+				sp.Split, sp.Last = split, true
 				child(rV1Last, sp, true)
 			}
 		case "ec":
@@ -246,16 +250,6 @@ func genSet(t *rapid.T, cfg genCfg) Set {
 		// Parts targeted individually are left to C01.
 		_ = targets
 		_ = lockTargets
-		hasParts := false
-		for _, m := range s.Members {
-			if m.Fam == fam {
-				hasParts = true
-			}
-		}
-		if cfg.noTombOnParent && form != "plain" && hasParts && nT > 0 {
-			s.excluded++ // excluded by construction: tombstone on a parent with stored parts
-			nT = 0
-		}
 		for i := 0; i < nT && room(c, 1); i++ {
 			sp := blank(uni.Tombstone, c, alloc(c))
 			sp.Target = f.Root
@@ -364,10 +358,11 @@ func (s Set) relatedPair() bool {
 
 // Known-finding fingerprints (root-cause classes), see /verif/known_findings.json.
 const (
-	// A tombstone of a split/EC parent read before a stored part that carries the
-	// parent header: the part is skipped (never indexed, no garbage mark) and
-	// parts tied only through it stay available.
-	fpTombParent = "C18:resync-tombstone-before-children-of-removed-parent"
+	// History: "C18:resync-tombstone-before-children-of-removed-parent" (fixed in
+	// /repo 775d780: resync puts tombstones after all other objects) – a tombstone
+	// of a split/EC parent read before a part carrying the parent header made
+	// PutBatch skip the part (never indexed, no garbage mark). No guard remains:
+	// the class is generated and asserted.
 	// Rebuild with a live epoch source: the header of an already expired parent
 	// is indexed with the first part that carries it, every later part carrying
 	// it is refused ("object is expired") and skipped: never indexed, no garbage
@@ -414,25 +409,4 @@ func (s Set) famOf(a oid.Address) int {
 		}
 	}
 	return -1
-}
-
-// tombOnParentFamilies returns the families whose root is a split/EC parent
-// targeted by a tombstone while parts of it are stored.
-func (s Set) tombOnParentFamilies() map[int]bool {
-	res := map[int]bool{}
-	for _, t := range s.Members {
-		if t.Role != rTomb {
-			continue
-		}
-		f := s.Families[t.Fam]
-		if f.Form == "plain" || t.Spec.Target != f.Root {
-			continue
-		}
-		for _, m := range s.Members {
-			if m.Fam == t.Fam && m.Role != rTomb && m.Role != rLock {
-				res[t.Fam] = true
-			}
-		}
-	}
-	return res
 }
